@@ -298,6 +298,10 @@ fn huge_write_case(ctx: &Ctx, idx: u64) -> Vec<CaseOut> {
 }
 
 pub fn run_case(ctx: &Ctx, idx: u64) -> Vec<CaseOut> {
+    crate::mt::watched(ctx, idx, "lzma-lzma2-round-trip", run_case_inner)
+}
+
+fn run_case_inner(ctx: &Ctx, idx: u64) -> Vec<CaseOut> {
     if idx == 24 || idx == 25 {
         return handmade_case(idx);
     }
